@@ -104,6 +104,28 @@ def sh2(prog):
                 if f[0] == "agg" and tr[0] == "agg":
                     err = None if (tr[3] == "PtrTrue" and f[3] == "PtrFalse") else \
                         "Var(l, p) | l = v gives %s when p == v and %s otherwise" % (tr[3], f[3])
+    if err == "literal case not recognised":
+        # the literal case may live in a helper called with (label, polarity, lbl, value)
+        for cs in te.calls:
+            if not cs.callee.local or cs.callee.name in ("condition", "canonicalize", "unique_or"):
+                continue
+            shown = [show(strip(a)) for a in cs.args]
+            if "(arg2 as Var).1" not in shown or "arg4" not in shown:
+                continue
+            pi, vi = shown.index("(arg2 as Var).1") + 1, shown.index("arg4") + 1
+            hs = [g for g in prog.lib_fns if g.name == cs.callee.name and "{closure" not in g.npath and g.npath == (cs.callee.res or cs.callee.def_)]
+            hs = hs or [g for g in prog.lib_fns if g.name == cs.callee.name and "{closure" not in g.npath]
+            if len(hs) != 1:
+                continue
+            for t in [v for b, t in hs[0].terms.ret_by_block.items() for v in mir.subterms(t)]:
+                ba = bool_arms(t)
+                if ba and strip(ba[0])[0] == "bin" and strip(ba[0])[1] == "Eq":
+                    c = strip(ba[0])
+                    if {strip(c[2]), strip(c[3])} == {("param", pi), ("param", vi)}:
+                        f, tr = strip(ba[1]), strip(ba[2])
+                        if f[0] == "agg" and tr[0] == "agg":
+                            err = None if (tr[3] == "PtrTrue" and f[3] == "PtrFalse") else \
+                                "Var(l, p) | l = v gives %s when p == v and %s otherwise" % (tr[3], f[3])
     out.append(inst("SH", "%s:SH2:literal" % fn.npath, VIOLATION if err and "gives" in err else (UNDECIDED if err else OK), fn, None,
                     err or "Var(l,p) | l=v is True iff p == v"))
     return out
@@ -285,10 +307,10 @@ def cc(prog):
         errs = []
         found = False
         for (h, l), ups in te.mu_update.items():
-            if fn.local_name(l) != "bdd":
-                continue
             for u in ups:
                 op = update_op(u, ("mu", h, l))
+                if op not in ("or", "and", "xor", "iff"):
+                    continue
                 if op is None:
                     continue   # the outer (per-clause) loop only carries the variable
                 found = True
@@ -308,9 +330,38 @@ def cc(prog):
                 if not lit_ok:
                     errs.append("the disjunct is not var(label(lit), polarity(lit)) of the clause's own literal")
         if not found:
-            errs.append("clause accumulator `bdd` not found")
-        out.append(inst("SH", "%s:CC:clause" % fn.npath, VIOLATION if errs else OK, fn, None,
-                        "; ".join(errs) if errs else "clause = fold of or over var(label(l), polarity(l))"))
+            # iterator form: clause.iter().fold(seed, |d, l| self.or(d, lit(l))) possibly inside a closure of compile_cnf
+            fam = [fn] + [g for g in prog.lib_fns if g.npath.startswith(fn.npath + "::{closure")]
+            for g in fam:
+                for cs in g.terms.calls:
+                    if cs.callee.name != "fold" or len(cs.args) != 3:
+                        continue
+                    clo = cs.args[2]
+                    if not (isinstance(clo, tuple) and clo[0] == "agg" and clo[1] == "closure"):
+                        continue
+                    kk = [k for k in prog.lib_fns if k.npath == clo[2]]
+                    if not kk:
+                        continue
+                    r = strip(kk[0].terms.ret)
+                    if not (mir.is_call(r) and r[1].name in ("or", "and", "xor", "iff")):
+                        continue
+                    found = True
+                    if r[1].name != "or":
+                        errs.append("clause accumulator is combined with `%s`" % r[1].name)
+                    lit_ok = False
+                    for a in r[2]:
+                        a = strip(a)
+                        args = a[2][-2:] if mir.is_call(a, "var") else (a[4] if a[0] == "agg" and a[3] == "Var" else None)
+                        if args and mir.is_call(strip(args[0]), "label") and mir.is_call(strip(args[1]), "polarity") and \
+                                strip(strip(args[0])[2][0]) == strip(strip(args[1])[2][0]):
+                            lit_ok = True
+                    if not lit_ok:
+                        errs.append("the disjunct is not var(label(lit), polarity(lit)) of the clause's own literal")
+        if not found:
+            errs.append("?clause accumulator not found")
+        verdict = OK if not errs else (UNDECIDED if all(e.startswith("?") for e in errs) else VIOLATION)
+        out.append(inst("SH", "%s:CC:clause" % fn.npath, verdict, fn, None,
+                        "; ".join(e.lstrip("?") for e in errs) if errs else "clause = fold of or over var(label(l), polarity(l))"))
     for name, tr in (("collapse_clauses", "builder::bdd::builder::BddBuilder"), ("compile_cnf_helper", "builder::sdd::builder::SddBuilder")):
         fn = prog.find1(name=name, in_trait=tr, unit="rsdd-lib")
         te = fn.terms
